@@ -1,0 +1,15 @@
+//go:build verif
+
+package blockchain
+
+import "sync/atomic"
+
+// Verification hooks (build tag verif).
+
+// VerifSetPushFailSleep sets how many one-second ticks a push task waits after a failed post
+// (production value 60); the retry logic itself is unchanged.
+func (chain *BlockChain) VerifSetPushFailSleep(n int32) {
+	if chain.push != nil {
+		atomic.StoreInt32(&chain.push.postFail2Sleep, n)
+	}
+}
